@@ -14,6 +14,8 @@ import (
 	"os"
 	"path/filepath"
 	"reflect"
+	"runtime"
+	"runtime/debug"
 	"sort"
 	"strings"
 
@@ -344,7 +346,7 @@ func Check() *common.Check {
 		CrashSafe: true,
 		Rule: "(S) every struct type of pkg/sql/ast with a Children method (listed from the current source by tools/astreg) x every exported field that can hold a node, " +
 			"populated alone with uniquely tagged content to depth 2, slices with 2 and 3 elements and rows of nested slices with lengths (2,2), (1,3), (3,1); (S2) every interface-typed node position (field or slice element) x every concrete node type assignable to it; (T) every tree of the sqlgen statement space (quick: without 3/4-operator shapes) " +
-			"every .sql file under /repo/testdata the parser accepts, and left-deep operator / UNION chains of every length 2..40, around 64..1024 and a ladder up to 1200 operands. Oracle on each root: multiset of nodes seen by ast.Inspect == multiset of node-typed values reachable by reflection. " +
+			"every .sql file under /repo/testdata the parser accepts, (H) every ordered pair of representative expression statements as parse / release / parse in one process (the second tree is built from recycled nodes), and left-deep operator / UNION chains of every length 2..40, around 64..1024 and a ladder up to 1200 operands. Oracle on each root: multiset of nodes seen by ast.Inspect == multiset of node-typed values reachable by reflection. " +
 			"distinct = distinct (type,field) obligations and distinct SQL texts; non-trivial = the root has at least 3 reachable nodes",
 		Assume: []string{"a node is identified by its type and canonical dump (Children() hands out copies of value-typed elements)",
 			"'part of the tree' = reachable through exported fields of the root, as the property states"},
@@ -463,6 +465,45 @@ func Check() *common.Check {
 					}
 				})
 			})
+			// (H) recycled trees: the nodes of a tree come from pools that an earlier, released tree went into.  Every ordered pair
+			// of representative expression statements: parse the first, release it, parse the second (same process, one P,
+			// collector off, pools emptied first) - the traversal of the second must be complete whatever the first left behind
+			var reps []sqlgen.S
+			seenRep := map[string]bool{}
+			sqlgen.HoleCases(func(hole, rep string, st sqlgen.S) {
+				if hole != "select.item" {
+					return
+				}
+				if sql := st.SQL(); !seenRep[sql] {
+					seenRep[sql] = true
+					reps = append(reps, st)
+				}
+			})
+			for _, a := range reps {
+				a := a
+				key := "H/" + a.SQL()
+				e.Do(key, func(c *common.Ctx) {
+					c.Input("parse, release, then parse and traverse every representative statement; first: " + a.SQL())
+					runtime.GOMAXPROCS(1)
+					defer debug.SetGCPercent(debug.SetGCPercent(-1))
+					runtime.GC()
+					runtime.GC()
+					for _, b := range reps {
+						if first, err := gosqlx.Parse(a.SQL()); err == nil {
+							ast.ReleaseAST(first)
+						}
+						second, err := gosqlx.Parse(b.SQL())
+						if err != nil {
+							continue
+						}
+						compare(c, second) // (a statement with a listed finding fails here as it does alone; the others go on)
+						ast.ReleaseAST(second)
+						c.Count("recycled_pairs", 1)
+					}
+					c.Outcome("recycled:returned")
+					c.NonTrivial()
+				})
+			}
 			// long chains: productions parsed by loops build left-deep trees whose depth is the operand count,
 			// far beyond the parser's nesting limit; every length around powers of two and a ladder up to 1200
 			chain := func(n int, op string) string {
